@@ -37,3 +37,8 @@ Theorem C06_len_refuted_before_F7 :
   /\ impl_dec Debug true 0 (TVec (TInt U32)) (enc_usize 4611686018427387905 ++ [1; 2; 3; 4]) = Err ELayout
   /\ impl_dec Release true 0 (TVec (TInt U32)) (enc_usize 4611686018427387905 ++ [1; 2; 3; 4]) = Err ELayout.
 Proof. exact impl_dec_unchecked_mul. Qed.
+
+(* the schema section of a file is untrusted input too: since fix F17 its reader never panics, on any bytes *)
+From SF Require Import Schema SchemaProofs3.
+Theorem C06_schema_section_no_panic : forall fv bs, de_top fv bs <> Panic.
+Proof. exact de_top_no_panic. Qed.
